@@ -8,7 +8,7 @@
   All arguments are s-expressions whose tokens are separated by single blanks:
     type   int float bool str None Unknown | ( list T ) ( dict K V ) ( tuple T* ) ( union T* ) ( cls name T* ) ( tvar name )
     env    ( ( name T ) … )
-    expr   ( int 12 ) ( float 1.5 ) ( str <hex> ) true false none ( var x ) ( factor +|-|~ e ) ( not e )
+    expr   ( int 12 ) ( float 1.5 ) ( str <hex> ) true false none empty ( var x ) ( factor +|-|~ e ) ( not e )
            ( bin e op e … ) ( cmp e op e … ) ( and e… ) ( or e… ) ( tern a c b ) ( list e… ) ( dict k v … ) ( tuple e… )
            ( index r k ) ( slice r lo hi ) ( group e ) ( call r m e… ) ( fcall f e… )
            ( listcomp proj ( x… ) src cond ) ( dictcomp k v ( x… ) src cond )
@@ -98,6 +98,7 @@ partial def toExpr : Sx → Option Expr
   | .atom "true" => some .true_
   | .atom "false" => some .false_
   | .atom "none" => some .none_
+  | .atom "empty" => some .empty_
   | .node [.atom "int", .atom n] => n.toNat?.map .int
   | .node [.atom "float", .atom f] => (parseFloat f).map .float
   | .node [.atom "str", .atom h] => (Str.unhex h).map .str
